@@ -454,7 +454,7 @@ def replay_schedule(ctx, kinds, n_ops, lines=None):
             except Exception as e:
                 bad.append("undecodable plaintext (%s)" % type(e).__name__)
                 continue
-            hit = [x for x in left if x == node]
+            hit = [x for x in left if SC.strict_eq(x, node)]
             if hit:
                 left.remove(hit[0])
             else:
